@@ -10,8 +10,29 @@ package server
 import (
 	"github.com/XiaoMi/Gaea/models"
 	"github.com/XiaoMi/Gaea/mysql"
+	"github.com/XiaoMi/Gaea/parser"
 	"github.com/XiaoMi/Gaea/util"
 )
+
+// PlannedKind tells what getPlan builds its plan from for this text on this
+// session: -1 when the statement is handled without a plan, when the fast path
+// forwards the text as it is (preBuildUnshardPlan) or when the grammar does not
+// parse it; otherwise stmtTypeOfNode of the tree the parser builds.
+func (v *VerifLexSession) PlannedKind(sql string) int {
+	reqCtx := util.NewRequestContext()
+	reqCtx.SetStmtType(parser.Preview(sql))
+	if canHandleWithoutPlan(reqCtx.GetStmtType()) {
+		return -1
+	}
+	if _, ok := v.se.preBuildUnshardPlan(reqCtx, v.se.db, sql); ok {
+		return -1
+	}
+	n, err := v.se.Parse(sql)
+	if err != nil {
+		return -1
+	}
+	return stmtTypeOfNode(n)
+}
 
 // VerifC21NewShardedSession is VerifLexNewSession for a namespace that has one
 // shard rule (table db1.tbl_shard, hash on id, two sub-tables on the only
